@@ -25,6 +25,8 @@ import (
 type ConnManager struct {
 	m     map[uuid.UUID]*Conn
 	mutex *sync.RWMutex
+	// epoch is incremented by Stop so that a connection accepted before Stop cannot register after it.
+	epoch int
 }
 
 // NewConnManager returns a connection map.
@@ -32,6 +34,7 @@ func NewConnManager() *ConnManager {
 	return &ConnManager{
 		m:     map[uuid.UUID]*Conn{},
 		mutex: &sync.RWMutex{},
+		epoch: 0,
 	}
 }
 
@@ -41,6 +44,25 @@ func (mgr *ConnManager) AddConn(c *Conn) {
 	defer mgr.mutex.Unlock()
 	uuid := c.UUID()
 	mgr.m[uuid] = c
+}
+
+// Epoch returns the current epoch of the manager. Stop starts a new epoch.
+func (mgr *ConnManager) Epoch() int {
+	mgr.mutex.RLock()
+	defer mgr.mutex.RUnlock()
+	return mgr.epoch
+}
+
+// AddConnInEpoch adds the specified connection only if the manager has not been stopped
+// since the specified epoch, and returns whether the connection was added.
+func (mgr *ConnManager) AddConnInEpoch(c *Conn, epoch int) bool {
+	mgr.mutex.Lock()
+	defer mgr.mutex.Unlock()
+	if mgr.epoch != epoch {
+		return false
+	}
+	mgr.m[c.UUID()] = c
+	return true
 }
 
 // Conns returns the included connections.
@@ -94,6 +116,10 @@ func (mgr *ConnManager) Close() error {
 
 // Stop closes all connections.
 func (mgr *ConnManager) Stop() error {
+	// Connections accepted so far that have not registered yet must not register any more.
+	mgr.mutex.Lock()
+	mgr.epoch++
+	mgr.mutex.Unlock()
 	if err := mgr.Close(); err != nil {
 		return err
 	}
